@@ -73,7 +73,7 @@ func generatedFuncs(c *pipeline.Case) map[string]map[string]string {
 
 func checkC12(r *Run) {
 	type mk = func() *descgen.Entry
-	files := []mk{descgen.K7, descgen.K9, func() *descgen.Entry { return descgen.K10(false) }, func() *descgen.Entry { return descgen.K10(true) }, descgen.K5, descgen.K1}
+	files := []mk{descgen.K7, descgen.K9, func() *descgen.Entry { return descgen.K10(false) }, func() *descgen.Entry { return noClash(descgen.K10(true)) }, descgen.K5, descgen.K1}
 	nr := r.pick(3, 54)
 	for i := 0; i < nr; i++ {
 		i := i
@@ -905,4 +905,34 @@ func contains(l []string, s string) bool {
 		}
 	}
 	return false
+}
+
+// noClash removes dependency messages whose simple name equals a message of the generated
+// file (and the fields that use them): `types` selects by simple name, and the statement of
+// C12 only covers dependency files whose names do not clash.
+func noClash(e *descgen.Entry) *descgen.Entry {
+	if e.File.Dep == nil {
+		return e
+	}
+	clash := map[string]bool{}
+	var keep []*ir.Message
+	for _, dm := range e.File.Dep.Messages {
+		if e.File.Msg(dm.Name, false) != nil {
+			clash[dm.Name] = true
+			continue
+		}
+		keep = append(keep, dm)
+	}
+	e.File.Dep.Messages = keep
+	for _, m := range e.File.Messages {
+		var fs []*ir.Field
+		for _, f := range m.Fields {
+			if f.RefDep && f.Kind == ir.KMessage && clash[f.Ref] {
+				continue
+			}
+			fs = append(fs, f)
+		}
+		m.Fields = fs
+	}
+	return e
 }
